@@ -72,13 +72,25 @@ Section Handler.
   Variable format : text -> text.                         (* format(path, tree, FormattingOptions::default()) of the file's source *)
   Variable diagnostic : Type.
 
-  (* get_text_edits: a buffer containing a CR gets one whole-document replacement (Gen.EditsConsts.whole_document_on_cr
-     says whether that branch is present in the source); otherwise the chunk-wise edits *)
+  (* replace_document: one edit for the whole document (none when nothing changes); the end position is taken on the
+     LF-only form of the text *)
+  Definition replace_document (old_text new_text : text) : list edit :=
+    if text_eqb old_text new_text then []
+    else [to_range rk_new (replace_cr (replace_crlf old_text)) new_text].
+
+  (* is_partition: the chunks, put together again, give exactly the old and the new text *)
+  Definition is_partition (chunks : list chunk) (old_text new_text : text) : bool :=
+    text_eqb (old_of chunks) old_text && text_eqb (new_of chunks) new_text.
+
+  (* get_text_edits: a buffer containing a CR, or a diff that does not add up to both texts, gets one whole-document
+     replacement (Gen.EditsConsts.whole_document_on_cr / validates_diff say whether those branches are present in
+     the source); otherwise the chunk-wise edits *)
   Definition get_text_edits (old_text new_text : text) : list edit :=
-    if whole_document_on_cr && contains cr_char old_text then
-      if text_eqb old_text new_text then []
-      else [to_range rk_new (replace_cr (replace_crlf old_text)) new_text]
-    else gte rk_new (diff old_text new_text).
+    if whole_document_on_cr && contains cr_char old_text then replace_document old_text new_text
+    else
+      let edits := diff old_text new_text in
+      if validates_diff && negb (is_partition edits old_text new_text) then replace_document old_text new_text
+      else gte rk_new edits.
 
   (* do_formatting: `error` = ctx.error, `codegen` = ctx.codegen() with tree.try_get_file(path) already looked up
      (None = no codegen context, Some None = the file is not part of the tree) *)
